@@ -162,7 +162,7 @@ def pairs (t : List Int) : List (Int × Int) := t.zip t.tail
 /-- `Slice.downsampled_to` AS THE CODE IS (finding F3): the edges are
     `np.arange(start, stop, step)`, which never contains `stop`.  `target` is `int(1e9 / frequency)`;
     `m = none` stands for an unknown method. -/
-def to (f : List Rat → Rat) (s : Src) (target : Int) (m : Option Method) (wh : Option Bool) :
+def downTo (f : List Rat → Rat) (s : Src) (target : Int) (m : Option Method) (wh : Option Bool) :
     Except Err (List Sample) :=
   match m with
   | none => .error .value
@@ -382,7 +382,7 @@ def handle : List String → Option String
     | [r, w, m, step] =>
       let r ← reduce? r
       let step ← int? step
-      some (showRes (to r.apply s step (method? m) (where? w)))
+      some (showRes (downTo r.apply s step (method? m) (where? w)))
     | _ => none
   | "c04.by" :: rest => do
     let (s, rest) ← mkSrc? rest
